@@ -82,6 +82,16 @@ class StmtMixin:
             expect = self.field_sort(s.targets[0], st)
         if isinstance(s.value, (ast.Yield,)):
             raise EngineError("value of a yield expression used (L%d)" % s.lineno)
+        if (len(s.targets) == 1 and isinstance(s.targets[0], ast.Name) and isinstance(s.value, ast.Attribute)
+                and isinstance(s.value.value, ast.Name) and s.value.value.id in st.env
+                and isinstance(st.env[s.value.value.id].s, (S.Seq, S.SetS, S.MapS))
+                and s.value.attr in ("append", "add", "extend", "update", "discard", "remove")):
+            # a = r.append : an alias of a container's bound method; a(x) is executed as r.append(x) (the container variable must
+            # not be rebound in between: checked where the alias is called)
+            st = st.copy()
+            st.env[s.targets[0].id] = V(FUNC, ("alias", s.value))
+            st.touch()
+            return [Out("normal", st)]
         for s1, v in self.ev(s.value, st, exc, expect):
             cur = [s1]
             for t in s.targets:
@@ -559,6 +569,11 @@ class StmtMixin:
                 elif isinstance(n, ast.Call):
                     if isinstance(n.func, ast.Name) and n.func.id == "next" and n.args and isinstance(n.args[0], ast.Name):
                         names.add(n.args[0].id)      # next(it) consumes the iterator held in that variable
+                    if isinstance(n.func, ast.Name) and n.func.id in st.env and st.env[n.func.id].s == FUNC \
+                            and isinstance(st.env[n.func.id].t, tuple) and st.env[n.func.id].t[0] == "alias":
+                        b_ = _base_name(st.env[n.func.id].t[1].value)
+                        if b_ and len(b_) == 1:
+                            names.add(b_[0])          # a(...) with a = r.append mutates r
                     if isinstance(n.func, ast.Attribute):
                         b = _base_name(n.func.value)
                         if b:
